@@ -49,6 +49,7 @@ def simulate(tape, cfg: dict[str, Any], check: Callable, *, gen=gen_spec, scenar
             "steps": world.loop.steps,
             "digest": world.trace.digest(),
             "states": list(world.states),
+            "evals": getattr(world, "_evals", 1) or 1,
         }
         for k, v in world.loop.stats.items():
             if k in ("timer_ties", "executor_jobs") and v:
